@@ -3,8 +3,8 @@ import json
 import lib, gen, common
 from common import clone_cfg, mkcase, rows
 
-ASSUMPTIONS = ['numbers in the interoperable range; -0 and member-order permutations excluded (the hand-written Hash and Eq disagree there: outside the quantifier)',
-               'HashSet is modelled as a list searched with Eq (ideal hasher); justified by C10_hash_coherent on the domain']
+ASSUMPTIONS = ['numbers in the interoperable range; -0 and member-order permutations are INCLUDED since the repairs aaa3975 and 5580b4e; what stays outside are the doubles 2^64 and -2^63, for which the = function itself is not transitive (C10_edge_not_transitive)',
+               'HashSet is modelled as a list searched with Eq (ideal hasher); justified by C10_hash_any_order / C10_key_hash for canonical keys and by C10_unique_parsed for every parsed input without those two doubles']
 TRUSTED = ['SipHash collisions are outside the model']
 
 SPELL = [b'1', b'1.0', b'1e0', b'10e-1', b'2', b'2.50', b'2.5', b'"a"', b'"\\u0061"', '"é"'.encode('utf8'), b'"\\u00e9"', b'null', b'true', b'[1,2]', b'[1.0, 2]', b'[]',
